@@ -166,6 +166,12 @@ def check_tree(prop, tier, replay):
     nscen, lines, samples, allcls = run_tree(prop, tier, res, want, VARIANTS[prop], BUDGET[tier])
     if prop == "C15":
         race_run(res, tier)
+    if prop == "C16":
+        # the typed layer's monitors (all 12 generated packages): same callback protocol
+        import fam_filters
+        st = fam_filters.run_typed(res, tier, {"typed-monitor-protocol", "crash"})
+        nscen += st["snaps"]
+        lines += st["lines"]
     res.coverage = {
         "states": lines, "transitions": lines,
         "traces_validated_against_impl": nscen,
